@@ -221,9 +221,13 @@ VF_NOINLINE static void runConfig(uint32_t N, bool wait, uint32_t n, uint32_t ma
   {
     // recur: the caller is itself a chunk of an enclosing parallel-for on the same pool (what the
     // library's own chunk closures establish through parForRecurse()) => serial execution expected
-    dispenso::detail::PerPoolPerThreadInfo::registerPool(recur ? &ts.pool() : nullptr, nullptr, -1);
-    int& level = dispenso::detail::PerPoolPerThreadInfo::info().parForRecursionLevel;
-    level = recur ? 1 : 0;
+    // (fields set one by one: registerPool's stores are merged by the compiler into a memset over the
+    // pointer fields, which the symbolic executor has to treat byte-wise)
+    dispenso::detail::PerThreadInfo& info = dispenso::detail::PerPoolPerThreadInfo::info();
+    if (recur) {
+      info.pool = &ts.pool();
+      info.parForRecursionLevel = 1;
+    }
 
 #if VF_ENTRY == 1 && VF_RVALUE == 1
     dispenso::for_each(ts, iterAt(0), iterAt((int)n), std::move(f), opts);
@@ -234,8 +238,10 @@ VF_NOINLINE static void runConfig(uint32_t N, bool wait, uint32_t n, uint32_t ma
 #else
     dispenso::for_each_n(ts, iterAt(0), n, f, opts);
 #endif
-    level = 0;
-    dispenso::detail::PerPoolPerThreadInfo::registerPool(nullptr, nullptr, -1);
+    if (recur) {
+      info.pool = nullptr;
+      info.parForRecursionLevel = 0;
+    }
   }
 
   if (maxThreads <= 1) {
